@@ -59,6 +59,11 @@ func OpenDir(baseDir string) (*Bundle, error) {
 		registryPackageVersionDeprecations: make(map[regaddr.ModulePackage]map[versions.Version]*RegistryVersionDeprecation),
 	}
 
+	// Only a regular file can be the manifest. A named pipe in its place
+	// would make the read wait for a writer that may never come.
+	if info, err := os.Stat(filepath.Join(rootDir, manifestFilename)); err == nil && !info.Mode().IsRegular() {
+		return nil, fmt.Errorf("cannot read manifest: %s is not a regular file", manifestFilename)
+	}
 	manifestSrc, err := os.ReadFile(filepath.Join(rootDir, manifestFilename))
 	if err != nil {
 		return nil, fmt.Errorf("cannot read manifest: %w", err)
